@@ -606,10 +606,15 @@ func (r *pxRun) branch(st *pxState, fr *pxFrame, b *ssa.BasicBlock, cond *T, don
 		}
 		// a decision that is determined on this path (e.g. the bound of a loop over a slice whose
 		// elements are known) does not use up the unrolling budget of its block — up to a hard cap
+		// … only for a loop header whose own condition is an index / counter comparison
 		isHeader := false
-		for _, p := range b.Preds {
-			if b.Dominates(p) {
-				isHeader = true
+		if iff, ok := b.Instrs[len(b.Instrs)-1].(*ssa.If); ok {
+			if bo, ok := iff.Cond.(*ssa.BinOp); ok && (bo.Op == token.LSS || bo.Op == token.LEQ || bo.Op == token.GTR || bo.Op == token.GEQ || bo.Op == token.NEQ) {
+				for _, p := range b.Preds {
+					if b.Dominates(p) {
+						isHeader = true
+					}
+				}
 			}
 		}
 		if hk := fmt.Sprintf("!%d.%d", fr.id, b.Index); isHeader && st.visits[hk] < 64 {
@@ -757,6 +762,13 @@ func termLits(t *T, pol bool) []Lit {
 			return []Lit{{"lt(" + l.String() + "," + r.String() + ")", p}}
 		}
 	}
+	if t.Op == "has" && t.HasEl && !pol && len(t.A) == 2 {
+		ls := []Lit{{t.String(), false}}
+		for _, key := range t.Elems {
+			ls = append(ls, Lit{eqAtom(t.A[1].String(), key.String()), false})
+		}
+		return ls
+	}
 	return []Lit{{t.String(), pol}}
 }
 
@@ -818,6 +830,21 @@ func (r *pxRun) eval(st *pxState, fr *pxFrame, v ssa.Value) *T {
 					return &T{Op: "tuple", A: []*T{v, cBool(true)}, Typ: x.Type()}
 				}
 				return v
+			}
+			// a path-local map whose keys are all known (possibly symbolic): presence of k is "k
+			// equals one of them"; absence refutes every one of those equalities
+			if x.CommaOk {
+				es := st.mapEntries(m)
+				tt := x.Type().(*types.Tuple)
+				val := &T{Op: "lookup", A: []*T{m, k}, Typ: tt.At(0).Type()}
+				if len(es) == 0 {
+					return &T{Op: "tuple", A: []*T{zeroTerm(tt.At(0).Type()), cBool(false)}, Typ: x.Type()}
+				}
+				h := &T{Op: "has", A: []*T{m, k}, Typ: types.Typ[types.Bool], HasEl: true}
+				for i := 0; i+1 < len(es); i += 2 {
+					h.Elems = append(h.Elems, es[i])
+				}
+				return &T{Op: "tuple", A: []*T{val, h}, Typ: x.Type()}
 			}
 		}
 		// m[k] where k is the key the enclosing range over the same (unmodified, non-local) map yielded:
